@@ -54,6 +54,9 @@ def main(argv=None) -> int:
             selftest = runner.run_for(pid)
             if selftest.get("failed"):
                 raise AnalysisError("self-test of the checker failed: %s" % json.dumps(selftest["failed"])[:2000])
+            for w in selftest.get("warnings") or []:
+                print("SELFTEST-WARNING property=%s case %s (tree differs from the one the cases were written for): %s" % (
+                    pid, w["id"], w["detail"][:200]))
     except AnalysisError as e:
         print("ANALYSIS-ERROR property=%s %s" % (pid, e))
         return 2
